@@ -109,6 +109,18 @@ CHECKS = {
     design="6/C06", technique="TLA+ state machine (RecordSM.tla) + TLC model checking of all short histories + behaviour replay and TLC trace validation",
     note=TRUSTED + "create_* are only called when no candidates/regions exist (documented use). Region invariants are required where "
          "regions were just (re)built."),
+ "C17": dict(
+    text=("Determinism.tla makes the interpreter's set/dict iteration order the schedule: a stage is a function of (input set, "
+          "iteration order) and must not reveal the order; TLC explores every input set of up to 4 (quick) / 5 (thorough) items and "
+          "every pair of iteration orders and establishes when the stage shapes of the pipeline are order-free (total sort key: "
+          "always; partial key: iff no tie; list(set): never), with the partial-key sort as negative control. Tie-rich inputs (3-5 "
+          "profiles per gene, equal scores, equal starts, equal coordinates) are pushed through the real stages - hit refinement, "
+          "rule detection and its results JSON, gene annotation, candidate clusters, regions and numbering, record JSON and GenBank "
+          "text - in 6 (quick) / 32 (thorough) child interpreters with different PYTHONHASHSEED and heap noise; Determinism_Trace "
+          "(TLC) requires equal digests of every stage across all interpreters."),
+    design="6/C17", technique="TLA+ spec (Determinism.tla, iteration order as schedule) + TLC + differential runs in child interpreters validated by TLC",
+    note=TRUSTED + "Stage-level dumps, not the full command line (needs HMMER/prodigal); address-dependent orders are sampled "
+         "through heap noise; non-vacuity = inputs on which at least two iteration orders were observed."),
 }
 CHECKS_END = None
 NOT_BUILT = "not built yet (work in progress, see DESIGN.md section 10 build order)"
